@@ -1,4 +1,8 @@
 //! Component-level suites: count-min row, sketch, Bloom filter, TinyLFU, policy.
+//!
+//! `Exec` is an interpreter of trace operation lines against the real code (through the
+//! `stretto::verif` facades); the generators only choose operations.  The same interpreter
+//! replays recorded cases (`harness replay`).
 use crate::rng::Rng;
 use crate::trace::Trace;
 use std::panic::{catch_unwind, AssertUnwindSafe};
@@ -44,6 +48,26 @@ pub fn str_policy_core(p: &PolicySnap) -> String {
     format!("max={} used={} kc={}", p.max_cost, p.used, str_kc(&p.key_costs))
 }
 
+pub fn str_metrics(m: &stretto::Metrics) -> String {
+    [
+        m.get_hits(),
+        m.get_misses(),
+        m.get_keys_added(),
+        m.get_keys_updated(),
+        m.get_keys_evicted(),
+        m.get_cost_added(),
+        m.get_cost_evicted(),
+        m.get_sets_dropped(),
+        m.get_sets_rejected(),
+        m.get_gets_dropped(),
+        m.get_gets_kept(),
+    ]
+    .iter()
+    .map(|x| x.unwrap().to_string())
+    .collect::<Vec<_>>()
+    .join(",")
+}
+
 /// `calc_size_by_wrong_positives` redone with the same f64 operations: the model takes the
 /// resulting `(entries, locs)` as parameters (the floating-point step itself is trusted).
 pub fn bloom_entries_locs(cap: usize, fp: f64) -> (u64, u64) {
@@ -73,348 +97,9 @@ impl verif::Hooks for NoteLog {
     }
 }
 
-fn hash_pool(rng: &mut Rng, n: usize) -> Vec<u64> {
-    let mut v = Vec::new();
-    let base = rng.next();
-    for i in 0..n {
-        v.push(match rng.below(5) {
-            0 => i as u64,                                  // tiny
-            1 => base ^ ((i as u64) << 48),                 // differ in high bits only
-            2 => base ^ (i as u64),                         // differ in low bits only
-            3 => u64::MAX - i as u64,                       // near the top
-            _ => rng.next(),
-        });
-    }
-    v
-}
-
-// ------------------------------------------------------------------------------------------
-
-pub fn suite_row(rng: &mut Rng, cases: u64, t: &mut Trace) {
-    for id in 0..cases {
-        t.case(id, "row");
-        let w = rng.range(1, 8);
-        let mut row = VRow::new(w);
-        t.step(&format!("rnew {}", w));
-        t.snap(&hex(&row.bytes()));
-        let steps = rng.range(10, 60);
-        let mut saturated = false;
-        let hot = rng.below(2 * w);
-        for _ in 0..steps {
-            match rng.below(20) {
-                0 => {
-                    row.reset();
-                    t.step("rreset");
-                    t.snap(&hex(&row.bytes()));
-                }
-                1 => {
-                    if rng.chance(1, 3) {
-                        row.clear();
-                        t.step("rclear");
-                        t.snap(&hex(&row.bytes()));
-                    }
-                }
-                2 => {
-                    let b: Vec<u8> = (0..w).map(|_| rng.next() as u8).collect();
-                    row.set_bytes(&b);
-                    t.step(&format!(
-                        "rset {}",
-                        b.iter().map(|x| x.to_string()).collect::<Vec<_>>().join(" ")
-                    ));
-                    t.snap(&hex(&row.bytes()));
-                }
-                3 | 4 | 5 => {
-                    let i = rng.below(2 * w);
-                    let v = row.get(i);
-                    t.step(&format!("rget {}", i));
-                    t.obs(&v.to_string());
-                    if v == 15 {
-                        saturated = true;
-                    }
-                }
-                _ => {
-                    let i = if rng.chance(2, 3) { hot } else { rng.below(2 * w) };
-                    row.increment(i);
-                    t.step(&format!("rinc {}", i));
-                    t.snap(&hex(&row.bytes()));
-                }
-            }
-        }
-        if saturated {
-            t.tag("row:saturated");
-        }
-        t.mark_nontrivial();
-    }
-}
-
-const WIDTHS: [u64; 12] = [1, 2, 3, 5, 8, 16, 33, 64, 70, 127, 129, 1000];
-
-pub fn suite_sketch(rng: &mut Rng, cases: u64, t: &mut Trace) {
-    for id in 0..cases {
-        t.case(id, "sketch");
-        let ctrs = if rng.chance(1, 40) {
-            0
-        } else if rng.chance(1, 2) {
-            rng.range(1, 70)
-        } else {
-            *rng.pick(&WIDTHS)
-        };
-        let seeds = [rng.next(), rng.next(), rng.next(), rng.next()];
-        let sk = VSketch::new(ctrs);
-        let mut sk = match sk {
-            Ok(mut s) => {
-                let real = s.snap().seeds;
-                let use_real = rng.chance(1, 5);
-                let sd = if use_real { real } else { seeds };
-                s.set_seeds(sd);
-                t.step(&format!("sknew {} {} {} {} {}", ctrs, sd[0], sd[1], sd[2], sd[3]));
-                t.obs("ok");
-                t.snap(&str_sketch(&s.snap()));
-                s
-            }
-            Err(_) => {
-                t.step(&format!("sknew {} 0 0 0 0", ctrs));
-                t.obs("err");
-                t.tag("sketch:rejected");
-                continue;
-            }
-        };
-        let mask = sk.snap().mask;
-        let pool = hash_pool(rng, 6);
-        let steps = rng.range(10, 80);
-        let snap_every = if ctrs <= 130 { 1 } else { 16 };
-        let mut n = 0u64;
-        let mut saw_sat = false;
-        for _ in 0..steps {
-            n += 1;
-            let h = match rng.below(4) {
-                0 => rng.next(),
-                // collide with pool[0] in row 0: same (h ^ seed) & mask
-                1 => pool[0] ^ (rng.next() & !mask),
-                _ => *rng.pick(&pool),
-            };
-            match rng.below(12) {
-                0 => {
-                    sk.reset();
-                    t.step("reset");
-                    t.snap(&str_sketch(&sk.snap()));
-                }
-                1 => {
-                    if rng.chance(1, 3) {
-                        sk.clear();
-                        t.step("clear");
-                        t.snap(&str_sketch(&sk.snap()));
-                    }
-                }
-                2 | 3 | 4 => {
-                    let r = catch_unwind(AssertUnwindSafe(|| sk.estimate(h)));
-                    t.step(&format!("est {}", h));
-                    match r {
-                        Ok(v) => {
-                            if v == 15 {
-                                saw_sat = true;
-                            }
-                            t.obs(&v.to_string())
-                        }
-                        Err(_) => {
-                            t.obs("panic");
-                            t.tag("sketch:panic");
-                            break;
-                        }
-                    }
-                }
-                _ => {
-                    let reps = if rng.chance(1, 6) { 17 } else { 1 };
-                    let mut dead = false;
-                    for _ in 0..reps {
-                        let r = catch_unwind(AssertUnwindSafe(|| sk.increment(h)));
-                        t.step(&format!("inc {}", h));
-                        if r.is_err() {
-                            t.obs("panic");
-                            t.tag("sketch:panic");
-                            dead = true;
-                            break;
-                        } else {
-                            t.obs("-");
-                        }
-                        if n % snap_every == 0 {
-                            t.snap(&str_sketch(&sk.snap()));
-                        }
-                    }
-                    if dead {
-                        break;
-                    }
-                }
-            }
-        }
-        t.step("est 0");
-        t.obs(&sk.estimate(0).to_string());
-        t.snap(&str_sketch(&sk.snap()));
-        if saw_sat {
-            t.tag("sketch:saturated");
-        }
-        t.tag(&format!("sketch:width<= {}", if ctrs <= 2 { "2" } else if ctrs <= 70 { "70" } else { "big" }));
-        t.mark_nontrivial();
-    }
-}
-
-const BLOOM_CAPS: [usize; 8] = [1, 7, 10, 64, 100, 1000, 5000, 20000];
-const BLOOM_FPS: [f64; 7] = [0.5, 0.1, 0.01, 0.001, 1.0, 3.0, 7.0];
-
-pub fn suite_bloom(rng: &mut Rng, cases: u64, t: &mut Trace) {
-    for id in 0..cases {
-        t.case(id, "bloom");
-        let cap = *rng.pick(&BLOOM_CAPS);
-        let fp = *rng.pick(&BLOOM_FPS);
-        let mut bl = VBloom::new(cap, fp);
-        let (entries, locs) = bloom_entries_locs(cap, fp);
-        t.step(&format!("blnew {} {}", entries, locs));
-        t.snap(&str_bloom(&bl.snap()));
-        let pool = hash_pool(rng, 12);
-        let steps = rng.range(10, 60);
-        let big = bl.snap().words.len() > 64;
-        let mut added: Vec<u64> = Vec::new();
-        let mut i = 0;
-        for _ in 0..steps {
-            i += 1;
-            let h = if rng.chance(1, 3) { rng.next() } else { *rng.pick(&pool) };
-            match rng.below(12) {
-                0 => {
-                    if rng.chance(1, 2) {
-                        bl.reset();
-                        t.step("reset");
-                    } else {
-                        bl.clear();
-                        t.step("clear");
-                    }
-                    added.clear();
-                    t.snap(&str_bloom(&bl.snap()));
-                }
-                1 | 2 | 3 => {
-                    let v = bl.contains(h);
-                    t.step(&format!("has {}", h));
-                    t.obs(if v { "1" } else { "0" });
-                    if !v && added.contains(&h) {
-                        t.tag("bloom:FALSE-NEGATIVE");
-                    }
-                }
-                4 | 5 | 6 => {
-                    let v = bl.contains_or_add(h);
-                    added.push(h);
-                    t.step(&format!("coa {}", h));
-                    t.obs(if v { "1" } else { "0" });
-                    if !big || i % 8 == 0 {
-                        t.snap(&str_bloom(&bl.snap()));
-                    }
-                }
-                _ => {
-                    bl.add(h);
-                    added.push(h);
-                    t.step(&format!("add {}", h));
-                    if !big || i % 8 == 0 {
-                        t.snap(&str_bloom(&bl.snap()));
-                    }
-                }
-            }
-        }
-        // every hash added since the last reset must be reported present
-        for h in added.iter().take(8) {
-            let v = bl.contains(*h);
-            t.step(&format!("has {}", h));
-            t.obs(if v { "1" } else { "0" });
-            if !v {
-                t.tag("bloom:FALSE-NEGATIVE");
-            }
-        }
-        t.snap(&str_bloom(&bl.snap()));
-        t.tag(&format!("bloom:exp={}", bl.snap().size_exp));
-        t.mark_nontrivial();
-    }
-}
-
-pub fn suite_tlfu(rng: &mut Rng, cases: u64, t: &mut Trace) {
-    for id in 0..cases {
-        t.case(id, "tlfu");
-        let ctrs = if rng.chance(1, 2) { rng.range(1, 40) } else { *rng.pick(&WIDTHS[..11]) };
-        let mut tl = VTinyLFU::new(ctrs as usize).unwrap();
-        let sd = [rng.next(), rng.next(), rng.next(), rng.next()];
-        tl.set_seeds(sd);
-        let (entries, locs) = bloom_entries_locs(ctrs as usize, 0.01);
-        t.step(&format!("tlnew {} {} {} {} {} {} {}", ctrs, sd[0], sd[1], sd[2], sd[3], entries, locs));
-        t.obs("ok");
-        t.snap(&str_tlfu(&tl.snap()));
-        let pool = hash_pool(rng, 5);
-        let steps = rng.range(10, 90);
-        let mut resets = 0;
-        for _ in 0..steps {
-            let h = if rng.chance(1, 5) { rng.next() } else { *rng.pick(&pool) };
-            match rng.below(10) {
-                0 => {
-                    if rng.chance(1, 3) {
-                        tl.clear();
-                        t.step("clear");
-                        t.snap(&str_tlfu(&tl.snap()));
-                    }
-                }
-                1 | 2 | 3 => {
-                    let v = tl.estimate(h);
-                    t.step(&format!("est {}", h));
-                    t.obs(&v.to_string());
-                }
-                4 => {
-                    let n = rng.range(0, 6);
-                    let hs: Vec<u64> = (0..n).map(|_| *rng.pick(&pool)).collect();
-                    let w0 = tl.snap().w;
-                    tl.increments(hs.clone());
-                    if tl.snap().w < w0 + n {
-                        resets += 1;
-                    }
-                    t.step(&format!(
-                        "incs {}",
-                        hs.iter().map(|x| x.to_string()).collect::<Vec<_>>().join(" ")
-                    ));
-                    t.snap(&str_tlfu(&tl.snap()));
-                }
-                _ => {
-                    let w0 = tl.snap().w;
-                    tl.increment(h);
-                    if tl.snap().w <= w0 {
-                        resets += 1;
-                    }
-                    t.step(&format!("inc {}", h));
-                    t.snap(&str_tlfu(&tl.snap()));
-                }
-            }
-        }
-        if resets > 0 {
-            t.tag("tlfu:case-with-reset");
-        }
-        t.mark_nontrivial();
-    }
-}
-
-fn str_metrics(m: &stretto::Metrics) -> String {
-    [
-        m.get_hits(),
-        m.get_misses(),
-        m.get_keys_added(),
-        m.get_keys_updated(),
-        m.get_keys_evicted(),
-        m.get_cost_added(),
-        m.get_cost_evicted(),
-        m.get_sets_dropped(),
-        m.get_sets_rejected(),
-        m.get_gets_dropped(),
-        m.get_gets_kept(),
-    ]
-    .iter()
-    .map(|x| x.unwrap().to_string())
-    .collect::<Vec<_>>()
-    .join(",")
-}
-
 /// One policy `add` through the facade, with the per-iteration samples the repository reported.
-/// Returns the trace op line and the observation line.
+/// Returns the full trace op line (with the oracle), the observation, and the number of loop
+/// iterations.
 pub fn policy_add_traced(p: &VPolicy, log: &NoteLog, k: u64, cost: i64) -> (String, String, usize, bool) {
     log.notes.lock().unwrap().clear();
     let inc = p.estimate(k);
@@ -454,104 +139,625 @@ pub fn policy_add_traced(p: &VPolicy, log: &NoteLog, k: u64, cost: i64) -> (Stri
     (op, obs, iters.len(), added)
 }
 
-pub fn suite_policy(rng: &mut Rng, cases: u64, t: &mut Trace) {
-    let log = Arc::new(NoteLog::default());
-    verif::install(Some(log.clone()));
+// ------------------------------------------------------------------------------------------
+// the interpreter
+
+pub struct Exec {
+    pub row: Option<VRow>,
+    pub sk: Option<VSketch>,
+    pub bl: Option<VBloom>,
+    pub tl: Option<VTinyLFU>,
+    pub pol: Option<(VPolicy, Arc<stretto::Metrics>)>,
+    pub log: Arc<NoteLog>,
+    /// write a state snapshot after every mutating step (else every `snap_every` steps)
+    pub snap_every: u64,
+    n: u64,
+    pub dead: bool,
+    /// iterations of the eviction loop in the last `add`, and whether it admitted
+    pub last_add: (usize, bool),
+}
+
+fn u(s: &str) -> u64 {
+    s.parse::<u64>().unwrap_or_else(|_| panic!("bad u64 {}", s))
+}
+fn i(s: &str) -> i64 {
+    s.parse::<i64>().unwrap_or_else(|_| panic!("bad i64 {}", s))
+}
+
+impl Exec {
+    pub fn new(log: Arc<NoteLog>) -> Self {
+        Exec { row: None, sk: None, bl: None, tl: None, pol: None, log, snap_every: 1, n: 0, dead: false, last_add: (0, false) }
+    }
+
+    pub fn reset(&mut self) {
+        if let Some((p, _)) = self.pol.take() {
+            let _ = p.close();
+        }
+        self.row = None;
+        self.sk = None;
+        self.bl = None;
+        self.tl = None;
+        self.snap_every = 1;
+        self.n = 0;
+        self.dead = false;
+    }
+
+    fn pol_snap(&self) -> String {
+        let (p, m) = self.pol.as_ref().unwrap();
+        let s = p.snap();
+        format!("{} met={} {}", str_policy_core(&s), str_metrics(m), str_tlfu(&s.tlfu))
+    }
+
+    /// Executes one operation line, writes its `S`/`O`/`N` lines, returns the observation.
+    pub fn run(&mut self, line: &str, t: &mut Trace) -> String {
+        let toks: Vec<&str> = line.split(' ').filter(|x| !x.is_empty()).collect();
+        let op = toks[0];
+        let a = &toks[1..];
+        self.n += 1;
+        let want_snap = self.n % self.snap_every == 0;
+        let mut obs: Option<String> = None;
+        let mut snap: Option<String> = None;
+        let mut out_line = line.to_string();
+        let r = catch_unwind(AssertUnwindSafe(|| match op {
+            // ---- row
+            "rnew" => {
+                self.row = Some(VRow::new(u(a[0])));
+                snap = Some(hex(&self.row.as_ref().unwrap().bytes()));
+            }
+            "rinc" => {
+                let r = self.row.as_mut().unwrap();
+                r.increment(u(a[0]));
+                snap = Some(hex(&r.bytes()));
+            }
+            "rget" => obs = Some(self.row.as_ref().unwrap().get(u(a[0])).to_string()),
+            "rreset" => {
+                let r = self.row.as_mut().unwrap();
+                r.reset();
+                snap = Some(hex(&r.bytes()));
+            }
+            "rclear" => {
+                let r = self.row.as_mut().unwrap();
+                r.clear();
+                snap = Some(hex(&r.bytes()));
+            }
+            "rset" => {
+                let b: Vec<u8> = a.iter().map(|x| u(x) as u8).collect();
+                if self.row.is_none() {
+                    self.row = Some(VRow::new(b.len() as u64));
+                }
+                let r = self.row.as_mut().unwrap();
+                r.set_bytes(&b);
+                snap = Some(hex(&r.bytes()));
+            }
+            // ---- sketch
+            "sknew" => match VSketch::new(u(a[0])) {
+                Ok(mut s) => {
+                    s.set_seeds([u(a[1]), u(a[2]), u(a[3]), u(a[4])]);
+                    obs = Some("ok".into());
+                    snap = Some(str_sketch(&s.snap()));
+                    self.sk = Some(s);
+                }
+                Err(_) => obs = Some("err".into()),
+            },
+            // ---- bloom
+            "blnew" => {
+                // replay form: blnew <entries> <locs> <cap> <fp-bits>
+                let cap = u(a[2]) as usize;
+                let fp = f64::from_bits(u(a[3]));
+                let b = VBloom::new(cap, fp);
+                let (e, l) = bloom_entries_locs(cap, fp);
+                out_line = format!("blnew {} {} {} {}", e, l, cap, fp.to_bits());
+                snap = Some(str_bloom(&b.snap()));
+                self.bl = Some(b);
+            }
+            "add" if self.bl.is_some() => {
+                let b = self.bl.as_mut().unwrap();
+                b.add(u(a[0]));
+                if want_snap {
+                    snap = Some(str_bloom(&b.snap()));
+                }
+            }
+            "has" => obs = Some(if self.bl.as_ref().unwrap().contains(u(a[0])) { "1" } else { "0" }.into()),
+            "coa" => {
+                let b = self.bl.as_mut().unwrap();
+                obs = Some(if b.contains_or_add(u(a[0])) { "1" } else { "0" }.into());
+                if want_snap {
+                    snap = Some(str_bloom(&b.snap()));
+                }
+            }
+            // ---- tinylfu
+            "tlnew" => {
+                let ctrs = u(a[0]);
+                match VTinyLFU::new(ctrs as usize) {
+                    Ok(mut tl) => {
+                        let sd = [u(a[1]), u(a[2]), u(a[3]), u(a[4])];
+                        tl.set_seeds(sd);
+                        let (e, l) = bloom_entries_locs(ctrs as usize, 0.01);
+                        out_line = format!("tlnew {} {} {} {} {} {} {}", ctrs, sd[0], sd[1], sd[2], sd[3], e, l);
+                        obs = Some("ok".into());
+                        snap = Some(str_tlfu(&tl.snap()));
+                        self.tl = Some(tl);
+                    }
+                    Err(_) => obs = Some("err".into()),
+                }
+            }
+            "incs" => {
+                let tl = self.tl.as_mut().unwrap();
+                tl.increments(a.iter().map(|x| u(x)).collect());
+                snap = Some(str_tlfu(&tl.snap()));
+            }
+            // ---- shared names, dispatched on what exists
+            "inc" => {
+                if let Some(s) = self.sk.as_mut() {
+                    s.increment(u(a[0]));
+                    obs = Some("-".into());
+                    if want_snap {
+                        snap = Some(str_sketch(&s.snap()));
+                    }
+                } else {
+                    let tl = self.tl.as_mut().unwrap();
+                    tl.increment(u(a[0]));
+                    snap = Some(str_tlfu(&tl.snap()));
+                }
+            }
+            "est" => {
+                if let Some(s) = self.sk.as_ref() {
+                    obs = Some(s.estimate(u(a[0])).to_string());
+                } else {
+                    obs = Some(self.tl.as_ref().unwrap().estimate(u(a[0])).to_string());
+                }
+            }
+            "reset" => {
+                if let Some(s) = self.sk.as_mut() {
+                    s.reset();
+                    snap = Some(str_sketch(&s.snap()));
+                } else {
+                    let b = self.bl.as_mut().unwrap();
+                    b.reset();
+                    snap = Some(str_bloom(&b.snap()));
+                }
+            }
+            "clear" => {
+                if let Some(s) = self.sk.as_mut() {
+                    s.clear();
+                    snap = Some(str_sketch(&s.snap()));
+                } else if let Some(b) = self.bl.as_mut() {
+                    b.clear();
+                    snap = Some(str_bloom(&b.snap()));
+                } else if let Some(tl) = self.tl.as_mut() {
+                    tl.clear();
+                    snap = Some(str_tlfu(&tl.snap()));
+                } else {
+                    self.pol.as_ref().unwrap().0.clear();
+                    snap = Some(self.pol_snap());
+                }
+            }
+            // ---- policy
+            "polnew" => {
+                let ctrs = u(a[0]);
+                let mc = i(a[1]);
+                match VPolicy::with_metrics(ctrs as usize, mc) {
+                    Ok((p, m)) => {
+                        let sd = [u(a[2]), u(a[3]), u(a[4]), u(a[5])];
+                        p.set_seeds(sd);
+                        let (e, l) = bloom_entries_locs(ctrs as usize, 0.01);
+                        out_line = format!("polnew {} {} {} {} {} {} {} {}", ctrs, mc, sd[0], sd[1], sd[2], sd[3], e, l);
+                        self.pol = Some((p, m));
+                        obs = Some("ok".into());
+                        snap = Some(self.pol_snap());
+                    }
+                    Err(_) => obs = Some("err".into()),
+                }
+            }
+            "tinc" => {
+                self.pol.as_ref().unwrap().0.increment(u(a[0]));
+                if want_snap {
+                    snap = Some(self.pol_snap());
+                }
+            }
+            "test" => obs = Some(self.pol.as_ref().unwrap().0.estimate(u(a[0])).to_string()),
+            "add" => {
+                let (l, o, iters, added) = policy_add_traced(&self.pol.as_ref().unwrap().0, &self.log, u(a[0]), i(a[1]));
+                out_line = l;
+                obs = Some(o);
+                self.last_add = (iters, added);
+                snap = Some(self.pol_snap());
+            }
+            "upd" => {
+                self.pol.as_ref().unwrap().0.update(u(a[0]), i(a[1]));
+                snap = Some(self.pol_snap());
+            }
+            "rem" => {
+                self.pol.as_ref().unwrap().0.remove(u(a[0]));
+                snap = Some(self.pol_snap());
+            }
+            "setmax" => {
+                self.pol.as_ref().unwrap().0.update_max_cost(i(a[0]));
+                snap = Some(self.pol_snap());
+            }
+            "cost" => obs = Some(self.pol.as_ref().unwrap().0.cost(u(a[0])).to_string()),
+            "cap" => obs = Some(self.pol.as_ref().unwrap().0.cap().to_string()),
+            _ => panic!("unknown op {}", op),
+        }));
+        if r.is_err() {
+            obs = Some("panic".into());
+            snap = None;
+            self.dead = true;
+        }
+        t.step(&out_line);
+        if let Some(o) = &obs {
+            t.obs(o);
+        }
+        if let Some(s) = &snap {
+            t.snap(s);
+        }
+        obs.unwrap_or_default()
+    }
+}
+
+// ------------------------------------------------------------------------------------------
+// generators
+
+fn hash_pool(rng: &mut Rng, n: usize) -> Vec<u64> {
+    let mut v = Vec::new();
+    let base = rng.next();
+    for i in 0..n {
+        v.push(match rng.below(5) {
+            0 => i as u64,                  // tiny
+            1 => base ^ ((i as u64) << 48), // differ in high bits only
+            2 => base ^ (i as u64),         // differ in low bits only
+            3 => u64::MAX - i as u64,       // near the top
+            _ => rng.next(),
+        });
+    }
+    v
+}
+
+pub fn suite_row(rng: &mut Rng, cases: u64, t: &mut Trace, ex: &mut Exec) {
+    for id in 0..cases {
+        t.case(id, "row");
+        ex.reset();
+        let w = rng.range(1, 8);
+        ex.run(&format!("rnew {}", w), t);
+        let steps = rng.range(10, 60);
+        let mut saturated = false;
+        let hot = rng.below(2 * w);
+        for _ in 0..steps {
+            match rng.below(20) {
+                0 => {
+                    ex.run("rreset", t);
+                }
+                1 => {
+                    if rng.chance(1, 3) {
+                        ex.run("rclear", t);
+                    }
+                }
+                2 => {
+                    let b: Vec<String> = (0..w).map(|_| (rng.next() as u8).to_string()).collect();
+                    ex.run(&format!("rset {}", b.join(" ")), t);
+                }
+                3 | 4 | 5 => {
+                    if ex.run(&format!("rget {}", rng.below(2 * w)), t) == "15" {
+                        saturated = true;
+                    }
+                }
+                _ => {
+                    let i = if rng.chance(2, 3) { hot } else { rng.below(2 * w) };
+                    ex.run(&format!("rinc {}", i), t);
+                }
+            }
+        }
+        if saturated {
+            t.tag("row:saturated");
+        }
+        t.mark_nontrivial();
+    }
+}
+
+const WIDTHS: [u64; 12] = [1, 2, 3, 5, 8, 16, 33, 64, 70, 127, 129, 1000];
+
+pub fn suite_sketch(rng: &mut Rng, cases: u64, t: &mut Trace, ex: &mut Exec) {
+    for id in 0..cases {
+        t.case(id, "sketch");
+        ex.reset();
+        let ctrs = if rng.chance(1, 40) {
+            0
+        } else if rng.chance(1, 2) {
+            rng.range(1, 70)
+        } else {
+            *rng.pick(&WIDTHS)
+        };
+        let mut sd = [rng.next(), rng.next(), rng.next(), rng.next()];
+        if rng.chance(1, 5) {
+            // the seeds the code itself would have drawn
+            if let Ok(s) = VSketch::new(ctrs.max(1)) {
+                sd = s.snap().seeds;
+            }
+        }
+        ex.snap_every = if ctrs <= 130 { 1 } else { 16 };
+        if ex.run(&format!("sknew {} {} {} {} {}", ctrs, sd[0], sd[1], sd[2], sd[3]), t) == "err" {
+            t.tag("sketch:rejected");
+            continue;
+        }
+        let mask = ex.sk.as_ref().unwrap().snap().mask;
+        let pool = hash_pool(rng, 6);
+        let steps = rng.range(10, 80);
+        let mut saw_sat = false;
+        'outer: for _ in 0..steps {
+            let h = match rng.below(4) {
+                0 => rng.next(),
+                // collide with pool[0] in every row: same (h ^ seed) & mask
+                1 => pool[0] ^ (rng.next() & !mask),
+                _ => *rng.pick(&pool),
+            };
+            match rng.below(12) {
+                0 => {
+                    ex.run("reset", t);
+                }
+                1 => {
+                    if rng.chance(1, 3) {
+                        ex.run("clear", t);
+                    }
+                }
+                2 | 3 | 4 => {
+                    let o = ex.run(&format!("est {}", h), t);
+                    if o == "15" {
+                        saw_sat = true;
+                    }
+                }
+                _ => {
+                    let reps = if rng.chance(1, 6) { 17 } else { 1 };
+                    for _ in 0..reps {
+                        ex.run(&format!("inc {}", h), t);
+                        if ex.dead {
+                            break 'outer;
+                        }
+                    }
+                }
+            }
+            if ex.dead {
+                break;
+            }
+        }
+        if ex.dead {
+            t.tag("sketch:PANIC");
+            t.mark_nontrivial();
+            continue;
+        }
+        ex.snap_every = 1;
+        ex.run("est 0", t);
+        ex.run("inc 0", t);
+        if saw_sat {
+            t.tag("sketch:saturated");
+        }
+        t.tag(&format!("sketch:width<={}", if ctrs <= 2 { "2" } else if ctrs <= 70 { "70" } else { "big" }));
+        t.mark_nontrivial();
+    }
+}
+
+const BLOOM_CAPS: [usize; 8] = [1, 7, 10, 64, 100, 1000, 5000, 20000];
+const BLOOM_FPS: [f64; 7] = [0.5, 0.1, 0.01, 0.001, 1.0, 3.0, 7.0];
+
+pub fn suite_bloom(rng: &mut Rng, cases: u64, t: &mut Trace, ex: &mut Exec) {
+    for id in 0..cases {
+        t.case(id, "bloom");
+        ex.reset();
+        let cap = *rng.pick(&BLOOM_CAPS);
+        let fp = *rng.pick(&BLOOM_FPS);
+        ex.run(&format!("blnew 0 0 {} {}", cap, fp.to_bits()), t);
+        let words = ex.bl.as_ref().unwrap().snap().words.len();
+        ex.snap_every = if words > 64 { 8 } else { 1 };
+        let pool = hash_pool(rng, 12);
+        let steps = rng.range(10, 60);
+        let mut added: Vec<u64> = Vec::new();
+        for _ in 0..steps {
+            let h = if rng.chance(1, 3) { rng.next() } else { *rng.pick(&pool) };
+            match rng.below(12) {
+                0 => {
+                    ex.run(if rng.chance(1, 2) { "reset" } else { "clear" }, t);
+                    added.clear();
+                }
+                1 | 2 | 3 => {
+                    let v = ex.run(&format!("has {}", h), t);
+                    if v == "0" && added.contains(&h) {
+                        t.tag("bloom:FALSE-NEGATIVE");
+                        println!("MONITOR property=C14 case={} msg=false-negative hash={}", id, h);
+                    }
+                }
+                4 | 5 | 6 => {
+                    ex.run(&format!("coa {}", h), t);
+                    added.push(h);
+                }
+                _ => {
+                    ex.run(&format!("add {}", h), t);
+                    added.push(h);
+                }
+            }
+        }
+        // every hash added since the last reset must be reported present
+        ex.snap_every = 1;
+        for h in added.iter().take(8) {
+            if ex.run(&format!("has {}", h), t) != "1" {
+                t.tag("bloom:FALSE-NEGATIVE");
+                println!("MONITOR property=C14 case={} msg=false-negative hash={}", id, h);
+            }
+        }
+        ex.run("coa 0", t);
+        t.tag(&format!("bloom:exp={}", ex.bl.as_ref().unwrap().snap().size_exp));
+        t.mark_nontrivial();
+    }
+}
+
+pub fn suite_tlfu(rng: &mut Rng, cases: u64, t: &mut Trace, ex: &mut Exec) {
+    for id in 0..cases {
+        t.case(id, "tlfu");
+        ex.reset();
+        let ctrs = if rng.chance(1, 2) { rng.range(1, 40) } else { *rng.pick(&WIDTHS[..11]) };
+        let sd = [rng.next(), rng.next(), rng.next(), rng.next()];
+        ex.run(&format!("tlnew {} {} {} {} {}", ctrs, sd[0], sd[1], sd[2], sd[3]), t);
+        let pool = hash_pool(rng, 5);
+        let steps = rng.range(10, 90);
+        let mut resets = 0;
+        // monitor (C13): between resets the estimate never undercounts min(count, 15)
+        let mut counts: std::collections::HashMap<u64, u64> = Default::default();
+        for _ in 0..steps {
+            let h = if rng.chance(1, 5) { rng.next() } else { *rng.pick(&pool) };
+            match rng.below(10) {
+                0 => {
+                    if rng.chance(1, 3) {
+                        ex.run("clear", t);
+                        counts.clear();
+                    }
+                }
+                1 | 2 | 3 => {
+                    let v: u64 = ex.run(&format!("est {}", h), t).parse().unwrap_or(0);
+                    let c = *counts.get(&h).unwrap_or(&0);
+                    if v < c.min(15) {
+                        println!("MONITOR property=C13 case={} msg=undercount hash={} est={} recorded={}", id, h, v, c);
+                    }
+                }
+                4 => {
+                    let n = rng.range(0, 6);
+                    let hs: Vec<u64> = (0..n).map(|_| *rng.pick(&pool)).collect();
+                    for x in &hs {
+                        let w0 = ex.tl.as_ref().unwrap().snap().w;
+                        ex.run(&format!("inc {}", x), t);
+                        *counts.entry(*x).or_insert(0) += 1;
+                        if ex.tl.as_ref().unwrap().snap().w <= w0 {
+                            resets += 1;
+                            counts.clear();
+                        }
+                    }
+                    let hs2: Vec<String> = (0..rng.below(3)).map(|_| rng.pick(&pool).to_string()).collect();
+                    if !hs2.is_empty() {
+                        let w0 = ex.tl.as_ref().unwrap().snap().w;
+                        ex.run(&format!("incs {}", hs2.join(" ")), t);
+                        if ex.tl.as_ref().unwrap().snap().w < w0 + hs2.len() as u64 {
+                            resets += 1;
+                            counts.clear();
+                        } else {
+                            for x in &hs2 {
+                                *counts.entry(x.parse().unwrap()).or_insert(0) += 1;
+                            }
+                        }
+                    }
+                }
+                _ => {
+                    let w0 = ex.tl.as_ref().unwrap().snap().w;
+                    ex.run(&format!("inc {}", h), t);
+                    *counts.entry(h).or_insert(0) += 1;
+                    if ex.tl.as_ref().unwrap().snap().w <= w0 {
+                        resets += 1;
+                        counts.clear();
+                    }
+                }
+            }
+        }
+        if resets > 0 {
+            t.tag("tlfu:case-with-reset");
+        }
+        t.mark_nontrivial();
+    }
+}
+
+pub fn suite_policy(rng: &mut Rng, cases: u64, t: &mut Trace, ex: &mut Exec) {
     for id in 0..cases {
         t.case(id, "policy");
+        ex.reset();
         let ctrs = *rng.pick(&[8u64, 16, 64, 3]);
         let mc = *rng.pick(&[10i64, 20, 37, 100]);
-        let (p, m) = VPolicy::with_metrics(ctrs as usize, mc).unwrap();
         let sd = [rng.next(), rng.next(), rng.next(), rng.next()];
-        p.set_seeds(sd);
-        let (entries, locs) = bloom_entries_locs(ctrs as usize, 0.01);
-        t.step(&format!("polnew {} {} {} {} {} {} {} {}", ctrs, mc, sd[0], sd[1], sd[2], sd[3], entries, locs));
-        t.obs("ok");
-        let snap = |p: &VPolicy, m: &stretto::Metrics| {
-            let s = p.snap();
-            format!("{} met={} {}", str_policy_core(&s), str_metrics(m), str_tlfu(&s.tlfu))
-        };
-        t.snap(&snap(&p, &m));
+        ex.run(&format!("polnew {} {} {} {} {} {}", ctrs, mc, sd[0], sd[1], sd[2], sd[3]), t);
         let nkeys = rng.range(4, 14);
         let steps = rng.range(20, 70);
         let mut loops = 0usize;
         let mut multi = false;
         let mut rejected = false;
+        // monitor (C01): slack accounting
+        let mut slack: i64 = 0;
         for _ in 0..steps {
             let k = rng.range(1, nkeys);
+            let s0 = ex.pol.as_ref().unwrap().0.snap();
             match rng.below(100) {
                 0..=19 => {
-                    // plant popularity
                     let reps = *rng.pick(&[1u64, 1, 2, 3, 16]);
+                    ex.snap_every = reps;
                     for _ in 0..reps {
-                        p.increment(k);
-                        t.step(&format!("tinc {}", k));
+                        ex.run(&format!("tinc {}", k), t);
                     }
-                    t.snap(&snap(&p, &m));
+                    ex.snap_every = 1;
                 }
                 20..=64 => {
-                    let s = p.snap();
-                    let room = s.max_cost - s.used;
+                    let room = s0.max_cost - s0.used;
                     let cost = match rng.below(6) {
                         0 => room.max(0),
                         1 => room.max(0) + 1,
-                        2 => s.max_cost,
-                        3 => s.max_cost + 1,
-                        _ => rng.range(0, (s.max_cost.max(1) as u64) / 2 + 1) as i64,
+                        2 => s0.max_cost,
+                        3 => s0.max_cost + 1,
+                        _ => rng.range(0, (s0.max_cost.max(1) as u64) / 2 + 1) as i64,
                     };
-                    let (op, obs, iters, added) = policy_add_traced(&p, &log, k, cost);
-                    t.step(&op);
-                    t.obs(&obs);
-                    t.snap(&snap(&p, &m));
+                    let was_charged = s0.key_costs.iter().find(|(kk, _)| *kk == k).map(|(_, c)| *c);
+                    ex.run(&format!("add {} {}", k, cost), t);
+                    let (iters, added) = ex.last_add;
+                    let s1 = ex.pol.as_ref().unwrap().0.snap();
+                    if added {
+                        slack = 0;
+                        if s1.used > s1.max_cost {
+                            println!("MONITOR property=C01 case={} msg=admission-left-total-over-max used={} max={}", id, s1.used, s1.max_cost);
+                        }
+                    } else if let Some(old) = was_charged {
+                        if cost <= s0.max_cost {
+                            slack += (cost - old).max(0);
+                        }
+                    }
+                    if cost > s0.max_cost && s1 != s0 {
+                        println!("MONITOR property=C01 case={} msg=oversize-add-changed-policy key={} cost={}", id, k, cost);
+                    }
                     if iters > 0 {
                         loops += 1;
-                        if iters > 1 {
-                            multi = true;
-                        }
-                        if !added {
-                            rejected = true;
-                        }
+                        multi |= iters > 1;
+                        rejected |= !added;
                     }
                 }
                 65..=79 => {
-                    let s = p.snap();
-                    let cost = rng.range(0, (s.max_cost.max(1) as u64) + 3) as i64;
-                    p.update(k, cost);
-                    t.step(&format!("upd {} {}", k, cost));
-                    t.snap(&snap(&p, &m));
+                    let cost = rng.range(0, (s0.max_cost.max(1) as u64) + 3) as i64;
+                    if let Some((_, old)) = s0.key_costs.iter().find(|(kk, _)| *kk == k) {
+                        slack += (cost - old).max(0);
+                    }
+                    ex.run(&format!("upd {} {}", k, cost), t);
                 }
                 80..=87 => {
-                    p.remove(k);
-                    t.step(&format!("rem {}", k));
-                    t.snap(&snap(&p, &m));
+                    ex.run(&format!("rem {}", k), t);
                 }
                 88..=93 => {
-                    let s = p.snap();
                     let nm = match rng.below(3) {
-                        0 => s.max_cost / 2 + 1,
-                        1 => s.max_cost * 2,
+                        0 => s0.max_cost / 2 + 1,
+                        1 => s0.max_cost * 2,
                         _ => rng.range(1, 120) as i64,
                     };
-                    p.update_max_cost(nm);
-                    t.step(&format!("setmax {}", nm));
-                    t.snap(&snap(&p, &m));
+                    slack += (s0.max_cost - nm).max(0);
+                    ex.run(&format!("setmax {}", nm), t);
                 }
                 94..=95 => {
-                    p.clear();
-                    t.step("clear");
-                    t.snap(&snap(&p, &m));
+                    ex.run("clear", t);
+                    slack = 0;
                 }
                 96..=97 => {
-                    t.step(&format!("cost {}", k));
-                    t.obs(&p.cost(k).to_string());
+                    ex.run(&format!("cost {}", k), t);
                 }
                 _ => {
-                    t.step("cap");
-                    t.obs(&p.cap().to_string());
+                    ex.run("cap", t);
                 }
             }
+            let s1 = ex.pol.as_ref().unwrap().0.snap();
+            let sum: i64 = s1.key_costs.iter().map(|(_, c)| *c).sum();
+            if sum != s1.used {
+                println!("MONITOR property=C01 case={} msg=total-differs-from-sum used={} sum={}", id, s1.used, sum);
+            }
+            if s1.used > s1.max_cost + slack {
+                println!("MONITOR property=C01 case={} msg=total-exceeds-max-plus-update-slack used={} max={} slack={}", id, s1.used, s1.max_cost, slack);
+            }
         }
-        let _ = p.close();
         if loops > 0 {
             t.mark_nontrivial();
             t.tag("policy:case-with-eviction-loop");
@@ -563,5 +769,25 @@ pub fn suite_policy(rng: &mut Rng, cases: u64, t: &mut Trace) {
             t.tag("policy:case-with-popularity-reject");
         }
     }
-    verif::install(None);
+    ex.reset();
+}
+
+/// Re-executes the `S` lines of a recorded trace against the current code.
+pub fn replay(path: &str, t: &mut Trace, ex: &mut Exec) {
+    let text = std::fs::read_to_string(path).expect("replay file");
+    for line in text.lines() {
+        if let Some(rest) = line.strip_prefix("case ") {
+            let mut it = rest.split(' ');
+            let id: u64 = it.next().unwrap().parse().unwrap_or(0);
+            let suite = it.next().unwrap_or("replay");
+            ex.reset();
+            t.case(id, suite);
+        } else if let Some(op) = line.strip_prefix("S ") {
+            if !ex.dead {
+                ex.run(op, t);
+            }
+        }
+    }
+    t.mark_nontrivial();
+    ex.reset();
 }
